@@ -115,6 +115,44 @@ def _comparator_fn(F, fn, depth):
     return False, "%s is not recognised as an equality" % short(fn)
 
 
+def mac_bypass(F, p):
+    """the only way around the MAC comparison in a MAC-computing validate_hop is the true edge of a switch on the bare
+    `ignore_macs` flag: with the comparison's guard blocks removed and every ignore_macs switch restricted to its
+    'do not ignore' edge, no Ok exit may stay reachable.  Returns (ok, why)."""
+    b = F.body(p)
+    oks = [bb for (bb, idx, adt, var) in T.result_variant_defs(b) if var == "Ok"]
+
+    def macp(tk, o, g):
+        return ("fn:" + MACFN) in tk and any(t.endswith("HopFieldView::mac") for t in tk)
+    M = set(T.guard_blocks(b, macp))
+    if not M or not oks:
+        return False, "no MAC comparison guard or no Ok exit"
+    succ = [list(x) for x in b.succ]
+    for g in M:
+        succ[g] = []
+    n_ign = 0
+    for g in sorted(b.live_blocks()):
+        e = FX.bool_edges(b, g)
+        if e is None or g in M:
+            continue
+        o = b.origin(b.term(g)[1])
+        pol = True
+        while o[0] == "un" and o[1] == "Not":
+            o, pol = o[2], not pol
+        x = o
+        while x[0] in ("deref", "ref"):
+            x = x[-1]
+        if x[0] == "field" and x[2] == "ignore_macs":
+            n_ign += 1
+            tt, ff = e
+            succ[g] = [ff if pol else tt]      # keep only the edge on which MACs are NOT ignored
+    r = b.reach([0], succ=succ)
+    bad = [x for x in oks if x in r]
+    if bad:
+        return False, "Ok exit bb%d is reachable without the MAC comparison and without ignore_macs being set (%d ignore_macs switch(es))" % (bad[0], n_ign)
+    return True, "%d comparison guard(s), %d ignore_macs switch(es)" % (len(M), n_ign)
+
+
 def run(F, R, tier, cfg):
     fa = T.FA(F)
     inst = [ROUT + n for n in ("advance_ingress", "advance_ingress_with_validator", "advance_egress", "advance_egress_with_validator")]
@@ -301,6 +339,11 @@ def run(F, R, tier, cfg):
             if not exact:
                 R.violation("CMP-mac", p + "/comparator", "the hop MAC is compared with something that is not recognised as an exact equality of all "
                             "bytes (%s): tampered hop fields can verify" % how, b.term_span(g).loc)
+        okb, whyb = mac_bypass(F, p)
+        R.ob("GS-mac-bypass", "%s: no way around the MAC comparison other than ignore_macs (%s)" % (short(p), whyb), okb, True,
+             {"rule": "GS-mac-bypass", "fn": p, "detail": whyb, "holds": okb})
+        if not okb:
+            R.violation("GS-mac-bypass", p, "%s can accept a hop field without verifying its MAC on a path that does not depend on ignore_macs alone: %s" % (short(p), whyb), F.loc(p))
         R.ob("GS-mac", "%s: Ok(()) controlled by mac() == calculate_hop_mac(..)" % short(p), ok and ok2, True)
         if not (ok and ok2):
             R.violation("GS-mac", p, "validator can accept a hop field without comparing its MAC: %s" % info.get("why"), F.loc(p))
